@@ -25,7 +25,7 @@ CHECKS = {
  "C04": ("Coq proof of ufunc2_correct (parametric in the element operation) + correspondence over dtype pairs with numpy as the element-level oracle",
          "ufunc2_correct: ufunc(ra, scalar / (n,1) column / equal-shape ragged) is the row-wise map2 for any element operation; mismatching shapes refused. "
          "Result dtype and element operation are numpy's own applied to row i alone (the property's wording); 22 binary, 8 unary ufuncs, operators, both sides, views and ufunc results as operands, two ufuncs in a row.", "4.4, 10.3", ""),
- "C05": ("Coq proof of reduce_correct (law-free folds), argmax_correct/argmin_correct + correspondence incl. reduce-mutate-reduce sequences",
+ "C05": ("Coq proof of reduce_correct, ra_row_mean_correct (mean along the rows) (law-free folds), argmax_correct/argmin_correct + correspondence incl. reduce-mutate-reduce sequences",
          "reduce_correct: reduceat + identity patch-up equals the per-row left fold with the identity on empty rows for every placement of empty rows; argmax/argmin pipeline. "
          "Correspondence only: keepdims / axis=None / mean wrappers, result dtypes, arrays unchanged by reductions.", "4.5, 10.3", ""),
  "C06": ("Coq proof of chain_correct (selection chains of any depth on lazy views), indistinguishable_read, and assign_leaves_older_arrays_unchanged (heap machine) + correspondence on programs",
